@@ -232,6 +232,12 @@ func wireConfigs(aspects map[string]bool, thorough bool) []WireCfg {
 					continue
 				}
 				out = append(out, WireCfg{Q: 4, Base: e.Base, Stride: e.Stride, Mappings: ms, Real: real, Aspects: aspects})
+				if !aspects["valid"] && e.Stride == 1 {
+					// error/truncation classes do not depend on the weights being dyadic: weights k/10 and k/3 give
+					// varfloat64 payloads of the full 9 bytes, so that cuts fall inside long payloads too
+					out = append(out, WireCfg{Q: 10, Base: e.Base, Stride: e.Stride, Mappings: ms, Real: real, Aspects: aspects})
+					out = append(out, WireCfg{Q: 3, Base: e.Base, Stride: e.Stride, Mappings: ms, Real: real, Aspects: aspects})
+				}
 			}
 		}
 	}
@@ -549,7 +555,7 @@ func (c *Ctx) runRealTruncations(n int) {
 			case 1:
 				v = 0
 			}
-			wt := []float64{1, 1, 1, 0.5, 2, 3.25}[rng.Intn(6)]
+			wt := []float64{1, 1, 1, 0.5, 2, 3.25, 0.1, 1.0 / 3, 0.7}[rng.Intn(9)]
 			if ex != nil {
 				ex.AddWithCount(v, wt)
 			} else {
@@ -565,7 +571,7 @@ func (c *Ctx) runRealTruncations(n int) {
 		// block boundaries according to the independent tokenizer
 		bounds := map[int]bool{0: true}
 		for cut := 1; cut <= len(b); cut++ {
-			if _, err := tokenize(b[:cut], q); err == nil {
+			if _, err := tokenize(b[:cut], 0); err == nil {
 				bounds[cut] = true
 			}
 		}
